@@ -62,7 +62,7 @@ def _class_of_value(e: ast.AST) -> Optional[str]:
     return None
 
 
-LATER_RULES = ' Later rules: (R12.6) hand-written visit_K methods of the template compiler pass all fields of K, empty ones included; (R12.7) the pattern list is matched as given; (R12.8) a wildcard never matches an absent child; (R12.9) leaf values are compared type-strictly; (R12.10) the candidate classes the search selects before matching are a necessary condition of a match for every kind of template (type, tree, wildcard, alternatives); (R12.11) the entry points of the pattern language ignore the same fields apart from positions.'
+LATER_RULES = ' Later rules: (R12.6) hand-written visit_K methods of the template compiler pass all fields of K, empty ones included; (R12.7) the pattern list is matched as given; (R12.8) a wildcard never matches an absent child; (R12.9) leaf values are compared type-strictly; (R12.10) the candidate classes the search selects before matching are a necessary condition of a match for every kind of template (type, tree, wildcard, alternatives); (R12.11) the entry points of the pattern language ignore the same fields apart from positions; (R12.12) the wildcard matcher answers `no match` only when the match against the own template of the wildcard failed.'
 
 
 def check(prog: Program, tier: str) -> Result:
@@ -95,7 +95,8 @@ def check(prog: Program, tier: str) -> Result:
     _r12_9(prog, res)
     _r12_10(prog, res)
     _r12_11(prog, res)
-    res.floors.update({"R12.1": 18, "R12.2": 11, "R12.3": 3, "R12.4": 8, "R12.5": 1, "R12.6": 4, "R12.7": 4, "R12.8": 1, "R12.9": 1, "R12.10": 4, "R12.11": 4})
+    _r12_12(prog, res)
+    res.floors.update({"R12.1": 18, "R12.2": 11, "R12.3": 3, "R12.4": 8, "R12.5": 1, "R12.6": 4, "R12.7": 4, "R12.8": 1, "R12.9": 1, "R12.10": 4, "R12.11": 4, "R12.12": 1})
     return res
 
 
@@ -503,9 +504,20 @@ def _r12_4(prog: Program, res: Result) -> None:
         st = parent(c)
         if isinstance(st, ast.Assign) and isinstance(st.targets[0], ast.Name):
             mvar = st.targets[0].id
-    rets5 = [r for r in walk_own(fn5.node) if isinstance(r, ast.Return) and isinstance(r.value, ast.IfExp)]
-    ok = bool(inner) and mvar is not None and any(norm(r.value.test) == f"len({mvar}) == 1" and norm(r.value.orelse) == "()" and f"{mvar}[0]" in norm(r.value.body) for r in rets5)
-    res.decide(ok, "R12.4", fn5.loc(), fn5.fq, "wildcard", "binds the node only if it matches the wildcard's template" if ok else "wildcards no longer check their own template")
+    # every answer `match` is given only after the wildcard's own template matched (or for the untyped wildcard, whose template
+    # `object` matches everything) - read off the conditions of each return, whatever the shape of the tests
+    ok, why = bool(inner) and mvar is not None, "the node is never matched against the wildcard's own template"
+    if ok:
+        tparam = fn5.posparams[1]
+        for conds, value in _return_cases(fn5.node.body, []):
+            for conds2, leaf in _expr_cases(value, list(conds)):
+                if isinstance(leaf, ast.Tuple) and not leaf.elts:
+                    continue
+                matched = any(_inner_truth(t, pol, mvar) is True for t, pol in conds2)
+                untyped = any(pol and f"{tparam}.template is object" in norm(t) and not (isinstance(t, ast.BoolOp) and isinstance(t.op, ast.Or)) for t, pol in conds2)
+                if not (matched or untyped):
+                    ok, why = False, f"`return {short(leaf, 60)}` answers a match without `{mvar}` being a successful match of the wildcard's own template"
+    res.decide(ok, "R12.4", fn5.loc(), fn5.fq, "wildcard", "binds the node only if it matches the wildcard's template" if ok else why)
     # _match_set: every element must match one of the alternatives
     fn6 = prog.func("core", "_match_set")
     t6 = norm(fn6.node)
@@ -800,6 +812,78 @@ def _r12_11(prog: Program, res: Result) -> None:
 
 
 
+# ------------------------------------------------------------------------------------------------ R12.12
+def _inner_truth(test: ast.AST, pol: bool, tm: str):
+    """What a test with polarity pol says about the inner match held by `tm`: True (matched), False (failed), None."""
+    if isinstance(test, ast.UnaryOp) and isinstance(test.op, ast.Not):
+        return _inner_truth(test.operand, not pol, tm)
+    if isinstance(test, ast.BoolOp) and ((isinstance(test.op, ast.And) and pol) or (isinstance(test.op, ast.Or) and not pol)):
+        for v in test.values:
+            t = _inner_truth(v, pol, tm)
+            if t is not None:
+                return t
+        return None
+    text = norm(test).replace(" ", "")
+    if text == tm:
+        return pol
+    if text in (f"len({tm})==0", f"0==len({tm})", f"{tm}==()", f"()=={tm}", f"len({tm})<1", f"1>len({tm})"):
+        return not pol
+    if text in (f"len({tm})>0", f"len({tm})>=1", f"len({tm})!=0", f"0<len({tm})", f"1<=len({tm})", f"{tm}!=()"):
+        return pol
+    if text in (f"len({tm})==1", f"1==len({tm})", f"len({tm})>1", f"1<len({tm})", f"len({tm})>=2") and pol:
+        return True
+    if text in (f"len({tm})<=1", f"1>=len({tm})", f"len({tm})<2") and not pol:
+        return True
+    return None
+
+
+def _r12_12(prog: Program, res: Result) -> None:
+    """A wildcard matches whatever its own template matches.  The wildcard matcher asks the matcher about that template
+    and gets the empty tuple for `no`, anything else for `yes` - a one-tuple for a plain template, a longer record when
+    the template has wildcards of its own.  Obligation: it answers `no match` only when the inner answer was the empty
+    tuple (or the child is absent, R12.8); testing `len(..) == 1` turns every template with inner wildcards into one that
+    never matches (`f({{x}})` with x = `{{y}} + 1` against `f(a + 1)`)."""
+    fn = prog.funcs.get(("core", "_match_wildcard"))
+    if fn is None:
+        raise AnalysisError("anchor core._match_wildcard not found")
+    node = fn.posparams[0]
+    from ..defuse import bindings
+    inner = [name for name in bindings(fn) if (d := single_def_in(fn, name)) is not None and isinstance(d, ast.Call)
+             and norm(d.func) == "match_template"]
+    if not inner:
+        res.undecided("R12.12", fn.loc(), fn.fq, "the inner match", "no local holds the answer of match_template() for the wildcard's own template")
+        return
+    tm = inner[0]
+    asked_at = single_def_in(fn, tm).lineno
+
+    def says_no_inner(test: ast.AST, pol: bool) -> bool:
+        if _inner_truth(test, pol, tm) is False:
+            return True
+        text = norm(test).replace(" ", "")
+        if isinstance(test, ast.UnaryOp) and isinstance(test.op, ast.Not):
+            return says_no_inner(test.operand, not pol)
+        return pol and text in (f"{node}isNone", f"Noneis{node}")
+
+    n = 0
+    for conds, value in _return_cases(fn.node.body, []):
+        for conds2, leaf in _expr_cases(value, list(conds)):
+            if not (isinstance(leaf, ast.Tuple) and not leaf.elts):
+                continue
+            n += 1
+            if leaf.lineno < asked_at:
+                res.ok("R12.12", fn.loc(leaf), fn.fq, f"() # the answer no-match, case {n}", "given before the wildcard's own template is asked (absent child, R12.8)", trivial=True)
+                continue
+            ok = any(says_no_inner(t, pol) for t, pol in conds2)
+            path = " and ".join(("" if pol else "not ") + f"({norm(t)})" for t, pol in conds2) or "always"
+            res.decide(ok, "R12.12", fn.loc(leaf), fn.fq, f"() # the answer no-match, case {n}",
+                       "only when the inner match failed or the child is absent" if ok else
+                       f"answered when {path}: `no match` is answered although `{tm}` may be a successful inner match: a record longer than one element is the answer for a template "
+                       "with wildcards of its own, so a typed wildcard whose template has wildcards never matches")
+    if n == 0:
+        res.undecided("R12.12", fn.loc(), fn.fq, "the `no match` answers", "no return of the empty tuple found")
+
+
+
 # ------------------------------------------------------------------------------------------------ R12.5
 def _r12_5(prog: Program, res: Result) -> None:
     """Search completeness of the list matcher: inside the loop over the quantifier expansions a `return` may only
@@ -971,6 +1055,9 @@ VARIANTS = [
     Variant("node-search-compares-string-prefix", "FIRE", "core", "    scope: ast.AST, node_template: Template, ignore: Collection[str] = SEARCH_IGNORE\n", "    scope: ast.AST, node_template: Template, ignore: Collection[str] = ()\n", "R12.11"),
     Variant("sequence-search-ignores-context", "FIRE", "core", "                    if m := match_template(node, template):", "                    if m := match_template(node, template, ignore=DEFAULT_IGNORE | {\"ctx\"}):", "R12.11"),
     Variant("sequence-search-passes-the-default-explicitly", "SILENT", "core", "                    if m := match_template(node, template):", "                    if m := match_template(node, template, ignore=DEFAULT_IGNORE):", "R12.11"),
+    Variant("inner-match-longer-than-one-is-no-match", "FIRE", "core", "    if len(template_match) <= 1:\n        return namedtuple_type(template_match[0]) if template_match else ()\n", "    if len(template_match) <= 1:\n        return namedtuple_type(template_match[0]) if template_match else ()\n    if len(template_match) > 2:\n        return ()\n", "R12.12"),
+    Variant("wildcard-binds-without-inner-match", "FIRE", "core", "        return namedtuple_type(template_match[0]) if template_match else ()\n", "        return namedtuple_type(node)\n", "R12.4"),
+    Variant("inner-match-tested-by-emptiness-first", "SILENT", "core", "    if len(template_match) <= 1:\n        return namedtuple_type(template_match[0]) if template_match else ()\n", "    if not template_match:\n        return ()\n    if len(template_match) == 1:\n        return namedtuple_type(template_match[0])\n", "R12.12"),
     Variant("zero-or-one-needs-one", "FIRE", "core", "            node_counts[(i, node.template)] = (0, 1)\n", "            node_counts[(i, node.template)] = (1, 1)\n", "R12.1"),
     Variant("star-plus-regexes-swapped", "FIRE", "core",
             "        **{name[2:-3]: ZeroOrMany(object) for name in re.findall(r\"\\{\\{\\w+\\*\\}\\}\", source)},\n        **{name[2:-3]: OneOrMany(object) for name in re.findall(r\"\\{\\{\\w+\\+\\}\\}\", source)},",
